@@ -312,7 +312,16 @@ func (x *Exec) indexAddr(st *State, fr *Frame, i *ssa.IndexAddr, set func(Value)
 			x.unsupported(st, fmt.Sprintf("indexaddr into %T", arr))
 		}
 	case VBytes:
-		x.unsupported(st, "indexaddr into []byte")
+		// reading one byte: an uninterpreted function of the bytes and the index. The cell is read-only
+		// (a store through it is outside the subset, see byteCell in store).
+		ln := App(SInt, "bytes.len", b.B)
+		x.oblige(st, "bounds", "index out of range", And(Ge(idx, IntLit(0)), Lt(idx, ln)), i.Pos(), nil)
+		st.assume(And(Ge(idx, IntLit(0)), Lt(idx, ln)))
+		f := x.sym.Func("bytes.at", []Sort{SBytes, SInt}, SInt)
+		at := App(SInt, f, b.B, idx)
+		st.assume(And(Ge(at, IntLit(0)), Le(at, IntLit(255))))
+		obj := x.alloc(st, byteCell{VScalar{at}})
+		set(VPtr{Nil: TFalse, Loc: &Loc{Obj: obj}, Typ: i.Type()})
 	default:
 		x.unsupported(st, fmt.Sprintf("indexaddr on %T", base))
 	}
@@ -456,8 +465,30 @@ func (x *Exec) mapGenLookup(st *State, m VMap, key Value) (Value, Term) {
 		cp.Entries = append(append([]MapEntry(nil), mg.Entries...), ent)
 		st.heap[m.Obj] = &cp
 	}
+	// materialise the stored value once (a lazily symbolic pointer/slice/map value must be the same
+	// object at every lookup of this key)
+	forceEntry := func(s *State) Value {
+		cur, ok := s.heap[m.Obj].(*MapGen)
+		if !ok {
+			return x.force(s, ent.Val)
+		}
+		for i, e := range cur.Entries {
+			if e.Key.S == kt.S {
+				if _, lazy := e.Val.(VLazy); !lazy {
+					return e.Val
+				}
+				v := x.force(s, e.Val)
+				cp := *cur
+				cp.Entries = append([]MapEntry(nil), cur.Entries...)
+				cp.Entries[i].Val = v
+				s.heap[m.Obj] = &cp
+				return v
+			}
+		}
+		return x.force(s, ent.Val)
+	}
 	if ent.Present.IsTrue() {
-		return x.force(st, ent.Val), TTrue
+		return forceEntry(st), TTrue
 	}
 	if ent.Present.IsFalse() {
 		return x.zero(st, elem), TFalse
@@ -473,7 +504,7 @@ func (x *Exec) mapGenLookup(st *State, m VMap, key Value) (Value, Term) {
 		}
 		return nil, TFalse
 	}
-	return x.force(st, ent.Val), TTrue
+	return forceEntry(st), TTrue
 }
 
 func (x *Exec) mapUpdate(st *State, fr *Frame, i *ssa.MapUpdate) {
@@ -838,3 +869,6 @@ func (x *Exec) chanLen(st *State, ch VChan) Term {
 	}
 	return Add(base, IntLit(int64(len(co.Sent))))
 }
+
+// byteCell is the read-only heap cell produced by indexing a []byte.
+type byteCell struct{ V Value }
